@@ -429,6 +429,8 @@ type InstCall struct {
 // arguments.
 func NewCall(callee value.Value, args ...value.Value) *InstCall {
 	inst := &InstCall{Callee: callee, Args: args}
+	// The call is made in the address space of the callee.
+	inst.AddrSpace = calleeAddrSpace(callee)
 	// Compute type.
 	inst.Type()
 	return inst
